@@ -421,6 +421,20 @@ def w_tls_handshake_header_cut():
     return "ok exported streams equal the plaintext" if got == want else "FAILS exported (%d, %d) bytes, sent (%d, %d)" % (len(got[0]) // 2, len(got[1]) // 2, len(want[0]) // 2, len(want[1]) // 2)
 
 
+def w_non_ascii_comment():
+    impl, tlsgen, table, _ = env()
+    from ref import synth
+    rng = random.Random(1)
+    s = tlsgen.single(rng, table, 0x1301, "TLS13", collections.Counter(), schedule="records", nrec=2, reclen=10)
+    st0, out0 = impl.run(s.capture, s.keylog, [])
+    noisy = "# Schl\u00fcssel\n".encode("utf-8") + s.keylog.encode()
+    cap = synth.pcapng([(p["ts"], p["frame"]) for p in s.packets], dsbs_before=[noisy])
+    st, out = impl.run(cap, None, [])
+    if (st, out) == (st0, out0):
+        return "ok a DSB whose key log starts with the comment line '# Schl\u00fcssel' gives the same export as the plain key-log file"
+    return "FAILS secrets in a DSB with a UTF-8 comment line: run ended with %s (%s)" % (st, str(getattr(impl, "last_exc", ""))[:60])
+
+
 def w_short_cid_direction():
     impl, *_ = env()
     from ref import readback
@@ -479,6 +493,7 @@ W = {  # name: (property, commit, tag, function, one-line description)
     "tls13-fragmented-flight": ("C01", "1e9feed", "tls13-handshake-fragmented", w_tls13_fragmented_flight, "TLS 1.3 server flight fragmented across records inside a message (RFC 8446 5.1): the Finished was not recognised, the server direction never switched to its application keys and its application data was lost"),
     "tls12-fragmented-certificate": ("C01", "101e670", "handshake-continuation-as-hello", w_tls12_fragmented_certificate, "TLS <= 1.2 Certificate fragmented across records (RFC 5246 6.2.1) with a continuation record starting with 0x01 or 0x02: taken for a ClientHello / ServerHello, session reset, nothing exported"),
     "tls-handshake-header-cut": ("C01", "d053156", "handshake-header-cut", w_tls_handshake_header_cut, "TLS 1.0 Certificate whose 4-byte message header is cut by a record boundary after 2 bytes: the next record started with 0x02 and was taken for a ServerHello, nothing exported"),
+    "non-ascii-comment-in-dsb": ("C09", "e751caa", "keylog-non-ascii", w_non_ascii_comment, "a decryption secrets block (strict ASCII decode) or key-log file (locale codec) with non-ASCII bytes in a comment line aborted the run with UnicodeDecodeError"),
     "legacy-nanosecond-pcap": ("C12", "7467fb4", "legacy-ns", w_legacy_nano, "legacy pcap with nanosecond magic: TypeError in the writer"),
 }
 
